@@ -135,7 +135,10 @@ fn run_typed<W: Copy + Ord + Debug>(
 
 fn cells_strategy(order_max: usize) -> impl Strategy<Value = (usize, Option<i64>, Vec<Option<i64>>, u8)> {
     (
-        1..=order_max,
+        prop_oneof![
+            12 => 1..=order_max,
+            1 => proptest::sample::select(vec![9_usize, 16, 33, 64, 65, 130]),
+        ],
         prop_oneof![2 => Just(None), 1 => (5..60_i64).prop_map(Some)],
         vec(0..5_u8, 4),
         vec(any::<u8>(), order_max * order_max),
@@ -151,7 +154,7 @@ fn cells_strategy(order_max: usize) -> impl Strategy<Value = (usize, Option<i64>
                 .collect();
             let cells = (0..n * n)
                 .map(|i| {
-                    let p = picks[i];
+                    let p = picks[(i * 31 + i / n) % picks.len()];
                     match shape % 6 {
                         // all infinite rows mixed in
                         0 if (i / n) % 2 == 0 => None,
@@ -175,7 +178,7 @@ impl Prop for C18 {
     type Case = Case;
     const ID: &'static str = "C18";
     const NUM: u64 = 18;
-    const RULE: &'static str = "matrices of order 1..8 written cell by cell through IndexMut<(usize, usize)> into DistanceMatrix::new(order, infinity) for W in {isize, usize}, infinity = W::MAX or a small value, entries from a 4-value palette plus infinity (ties, all-infinite rows, all-infinite matrices, asymmetric rows), isize entries also negative; plus matrices returned by FloydWarshall on generated digraphs; enum leg: every 2x2 and 3x3... (order<=2 fully, order 3 over a 3-symbol alphabet) matrix. Non-trivial = at least two vertices tie for the minimum or the maximum eccentricity, or every eccentricity is infinite; distinct = distinct serialised case.";
+    const RULE: &'static str = "matrices of order 1..8 (one in 13 of order 9, 16, 33, 64, 65 or 130) written cell by cell through IndexMut<(usize, usize)> into DistanceMatrix::new(order, infinity) for W in {isize, usize}, infinity = W::MAX or a small value, entries from a 4-value palette plus infinity (ties, all-infinite rows, all-infinite matrices, asymmetric rows), isize entries also negative; plus matrices returned by FloydWarshall on generated digraphs; enum leg: every 2x2 and 3x3... (order<=2 fully, order 3 over a 3-symbol alphabet) matrix. Non-trivial = at least two vertices tie for the minimum or the maximum eccentricity, or every eccentricity is infinite; distinct = distinct serialised case.";
     const ASSUMPTIONS: &'static [&'static str] = &["entries never exceed the matrix's infinity value, as the property requires"];
 
     fn legs(tier: Tier) -> Vec<Leg> {
